@@ -26,6 +26,8 @@ Families (code)
     6 randfield f_i = sum_k Amp_ik sin(W_k . x + nu_k t + ph_k)   (random smooth time-dependent, any n)    SciPy 1e-13
     7 logistic  y' = r (1 + a cos(w t + ph)) y (1 - y)                                                     closed form
     8 polyt     x_i' = sum_{k<=3} c_ik t^k                       (pure quadrature, exact for order >= 4)  closed form
+    9 logdecay  x0' = -a x0, x1' = -b x1 log(x1 / c)   (two time scales; NaN outside the domain x1 > 0)       closed form
+                (not part of catalogue(): used by C02's restricted-domain clause through logdecay_state / logdecay_exact)
 
 Self-test:  python -m hmon.oracles.exactflows
 """
@@ -107,7 +109,23 @@ def universal_rhs(t, y):
     elif fam == 8:
         for i in range(n):
             out[i] = y[p + 4 * i] + t * (y[p + 4 * i + 1] + t * (y[p + 4 * i + 2] + t * y[p + 4 * i + 3]))
+    elif fam == 9:
+        # restricted domain: smooth for x1 > 0, NaN for x1 < 0 (logarithm of a negative number)
+        out[0] = -y[p] * y[0]
+        out[1] = -y[p + 1] * y[1] * np.log(y[1] / y[p + 2])
     return out
+
+
+def logdecay_state(x0, x1, a, b, c, dim):
+    """augmented state vector of family 9 padded to ``dim`` components"""
+    y = np.zeros(dim)
+    y[0], y[1], y[2], y[3], y[4], y[dim - 2], y[dim - 1] = x0, x1, a, b, c, 2.0, 9.0
+    return y
+
+
+def logdecay_exact(x0, x1, a, b, c, t):
+    t = np.asarray(t, dtype=float)
+    return np.column_stack([x0 * np.exp(-a * t), c * np.exp(np.log(x1 / c) * np.exp(-b * t))])
 
 
 _NUMBA_RHS = None
